@@ -6,6 +6,7 @@
 package verifbubble
 
 import (
+	"strconv"
 	"fmt"
 	"os"
 	"runtime"
@@ -96,7 +97,13 @@ func Run(t *testing.T, body func()) (out Outcome) {
 	// behind: stale real timers in the processor's timer heap would change
 	// its layout from run to run and with it the firing order of bubble
 	// timers that expire at the same virtual instant.
-	wd := time.NewTimer(Watchdog)
+	limit := Watchdog
+	if v := os.Getenv("VFX_WATCHDOG_S"); v != "" {
+		if n, err := strconv.Atoi(v); err == nil && n > 0 {
+			limit = time.Duration(n) * time.Second
+		}
+	}
+	wd := time.NewTimer(limit)
 	defer wd.Stop()
 	select {
 	case o := <-done:
